@@ -36,7 +36,9 @@
 // pattern> / import --fixup and then exported again (coordinates
 // lfs-adopted-midway/import-include, /fixup, /export) and import --fixup over
 // histories whose attribute state changes through nested .gitattributes files
-// only (nested.go, coordinate fixup-nested-attributes-change). VERIF_C12_CASE=<i> runs one case, VERIF_C12_KEEP=1 keeps
+// only (nested.go, coordinate fixup-nested-attributes-change) and general
+// histories with non-monotonic commit dates (GenOpt.Dates, coordinates
+// skewed-committer-dates, identical-commit-dates, skewed-author-dates). VERIF_C12_CASE=<i> runs one case, VERIF_C12_KEEP=1 keeps
 // its scratch directory (debugging / replay aid).
 //
 // Weakest-reading choices (not judged): reflogs, refs/original, unreachable
@@ -282,6 +284,55 @@ var nBase int
 // attribute state changes through nested .gitattributes files only (nested.go).
 var nMid int
 
+// nNest is the number of nested-attributes cases; the indices from nBase+nMid+nNest on are general
+// branching histories with a commit-date layout other than the monotonic one (GenOpt.Dates).
+var nNest int
+
+var dateCombos = []struct{ mode, refsel string }{
+	{"import-include", "everything"},
+	{"export", "everything"},
+	{"import-include", "include-ref"},
+	{"import-all", "everything"},
+	{"export", "include-ref"},
+	{"import-fixup", "everything"},
+}
+
+var dateLayouts = []string{"ancestor-later", "decreasing", "identical", "author-skewed"}
+
+// planDates: k-th date-layout case: a general history (branches, 2-parent and octopus merges, orphan
+// roots, tags) whose dates are NOT "every ancestor is older than its descendants", migrated over
+// several refs at once. (command, ref selection) x layout rotate with k and the seed.
+func planDates(run *evid.Run, idx, k int) *caseSpec {
+	r := rand.New(rand.NewSource(run.Seed*1000003 + int64(idx)*7919 + 12))
+	s := &caseSpec{Idx: idx, r: r}
+	rot := int(run.Seed % 97)
+	cb := dateCombos[(rot+k)%len(dateCombos)]
+	s.Mode, s.RefSel = cb.mode, cb.refsel
+	s.Gen.Dates = dateLayouts[(rot+k+k/len(dateCombos))%len(dateLayouts)]
+	switch s.Gen.Dates {
+	case "identical":
+		s.Trigger = "identical-commit-dates"
+	case "author-skewed":
+		s.Trigger = "skewed-author-dates"
+	default:
+		s.Trigger = "skewed-committer-dates"
+	}
+	s.Gen.Commits = 12 + r.Intn(5)
+	switch s.Mode {
+	case "import-include":
+		s.Sel = importSels[[]int{0, 1, 2, 3, 4, 6}[(rot+k/len(dateCombos))%6]]
+	case "export":
+		s.Sel, s.Gen.DatInLFS = exportSels[(rot+k/len(dateCombos))%len(exportSels)], true
+		s.Gen.NoNestedBinAttrs, s.Gen.NoEvilMerge = true, true
+	case "import-fixup":
+		s.Gen.Fixup = "plain"
+	}
+	s.Gen.TagOfTag = s.RefSel == "everything"
+	s.Gen.NoBin = r.Intn(5) == 0 && !s.Gen.DatInLFS
+	s.HeadPick = r.Intn(100)
+	return s
+}
+
 // planNested: k-th nested-attributes case: (root file variant, ref selection) rotate with k and the seed.
 func planNested(run *evid.Run, idx, k int) *caseSpec {
 	r := rand.New(rand.NewSource(run.Seed*1000003 + int64(idx)*7919 + 12))
@@ -492,6 +543,67 @@ func (c *caseCtx) commitRaw(dir string, files map[string][]byte) {
 	c.run.Count("raw_commits_added_between_commands", 1)
 }
 
+// countDateOrder observes (never judges) how the committer dates of the original history relate to
+// its shape: commits that have an ancestor with a LATER committer date, and whether Git's default
+// (commit-date) ordering of all refs, reversed, would list some commit before one of its parents.
+func (c *caseCtx) countDateOrder(v *view) {
+	cdate := func(pc *pcommit) int64 {
+		f := strings.Fields(pc.committer)
+		if len(f) < 2 {
+			return 0
+		}
+		var t int64
+		fmt.Sscan(f[len(f)-2], &t)
+		return t
+	}
+	var tips []string
+	for _, s := range v.refs {
+		if _, fin, typ := v.peel(s); typ == "commit" {
+			tips = append(tips, fin)
+		}
+	}
+	maxAnc := map[string]int64{} // latest committer date among the commit and its ancestors
+	var walk func(s string) int64
+	walk = func(s string) int64 {
+		if m, ok := maxAnc[s]; ok {
+			return m
+		}
+		pc := v.commit(s)
+		m := cdate(pc)
+		maxAnc[s] = m
+		for _, p := range pc.parents {
+			if x := walk(p); x > m {
+				m = x
+			}
+		}
+		maxAnc[s] = m
+		return m
+	}
+	skewed := 0
+	for s := range v.reach(tips) {
+		if walk(s) > cdate(v.commit(s)) {
+			skewed++
+		}
+	}
+	c.run.Count("commits_with_an_ancestor_dated_later", int64(skewed))
+	if skewed > 0 {
+		c.run.Count("histories_with_ancestor_dated_after_descendant", 1)
+	}
+	seen := map[string]bool{}
+	inverted := false
+	for _, s := range strings.Fields(c.env.MustPlainGit(v.dir, "rev-list", "--reverse", "--all")) {
+		seen[s] = true
+		for _, p := range v.commit(s).parents {
+			if !seen[p] {
+				inverted = true
+			}
+		}
+	}
+	if inverted {
+		c.run.Count("histories_where_reversed_date_order_lists_child_before_parent", 1)
+	}
+}
+
 func loadRefs(env *sbx.Env, dir string) map[string]string {
 	out := map[string]string{}
 	for _, l := range strings.Split(env.MustPlainGit(dir, "for-each-ref", "--format=%(refname) %(objectname)"), "\n") {
@@ -515,7 +627,9 @@ func selArgs(s selection) []string {
 
 func runCase(run *evid.Run, idx int) *caseCtx {
 	var spec *caseSpec
-	if idx >= nBase+nMid {
+	if idx >= nBase+nMid+nNest {
+		spec = planDates(run, idx, idx-nBase-nMid-nNest)
+	} else if idx >= nBase+nMid {
 		spec = planNested(run, idx, idx-nBase-nMid)
 	} else if idx >= nBase {
 		spec = planMidway(run, idx, idx-nBase)
@@ -573,6 +687,11 @@ func runCase(run *evid.Run, idx int) *caseCtx {
 
 	orig := c.copyRepo(g.Dir, "orig")
 	oldV := loadView(env, orig)
+	c.countDateOrder(oldV)
+	if spec.Gen.Dates != "" {
+		c.pathTrig = spec.Trigger
+		run.Count("histories_with_date_layout_"+spec.Gen.Dates, 1)
+	}
 
 	switch spec.Mode {
 	case "import-no-rewrite":
@@ -716,7 +835,7 @@ func main() {
 	if os.Getenv("VERIF_C12_KEEP") == "" {
 		defer sbx.RemoveBase()
 	}
-	run.Rule = "seeded repositories built with git plumbing (linear, branching, 2-parent and octopus merges, orphan roots, lightweight / annotated / tag-of-tag tags, symlinks and executables whose names match the selections, empty files, gitlinks, nested .gitattributes, *.bin files already in LFS through the clean filter, raw files under LFS attributes, distinct author/committer identities, dates and zones, multi-line messages, one exotic commit feature in a third of the cases) x one migrate command: import --include/--exclude (forms *.ext, dir/*.ext, exact path, dir/**), import --above, import (all files), import --fixup (attribute variants), import --no-rewrite, export --include/--exclude, export after import; plus histories that adopt LFS midway (raw files first, then exactly the line `git lfs track <pattern>` writes and every matching file re-added through the clean filter, later commits already correct, files committed raw although tracked and repaired later, topic merge, legacy branch, tags) x {import --include=<pattern>, import --fixup} x {--everything, current branch, --include-ref} followed by export --include=<pattern>; plus --fixup histories whose attribute state changes between consecutive commits only through nested .gitattributes files (sub/, sub/deep/, a directory with a space, a merged side branch; states absent / track / empty / !filter / -filter; root file absent, unrelated or tracking; root-file changes as control; fresh paths and contents per attribute state); ref selection in {--everything, current branch, current branch minus remote refs, --include-ref/--exclude-ref, positional branches}. Class = (mode, ref selection, pattern forms, special coordinate)."
+	run.Rule = "seeded repositories built with git plumbing (linear, branching, 2-parent and octopus merges, orphan roots, lightweight / annotated / tag-of-tag tags, symlinks and executables whose names match the selections, empty files, gitlinks, nested .gitattributes, *.bin files already in LFS through the clean filter, raw files under LFS attributes, distinct author/committer identities, dates and zones, multi-line messages, one exotic commit feature in a third of the cases) x one migrate command: import --include/--exclude (forms *.ext, dir/*.ext, exact path, dir/**), import --above, import (all files), import --fixup (attribute variants), import --no-rewrite, export --include/--exclude, export after import; plus histories that adopt LFS midway (raw files first, then exactly the line `git lfs track <pattern>` writes and every matching file re-added through the clean filter, later commits already correct, files committed raw although tracked and repaired later, topic merge, legacy branch, tags) x {import --include=<pattern>, import --fixup} x {--everything, current branch, --include-ref} followed by export --include=<pattern>; plus --fixup histories whose attribute state changes between consecutive commits only through nested .gitattributes files (sub/, sub/deep/, a directory with a space, a merged side branch; states absent / track / empty / !filter / -filter; root file absent, unrelated or tracking; root-file changes as control; fresh paths and contents per attribute state); plus general branching histories whose commit dates are laid out as {root / trunk / fork-point and random commits dated later than their descendants, committer dates decreasing, one identical date everywhere, author dates up to 400 days before or after the committer date} x {import --include, import (all), import --fixup, export} x {--everything, several --include-ref}; ref selection in {--everything, current branch, current branch minus remote refs, --include-ref/--exclude-ref, positional branches}. Class = (mode, ref selection, pattern forms, special coordinate)."
 	run.Assumptions = []string{
 		"pattern semantics of --include/--exclude are those of .gitattributes (man page); only the forms *.ext, dir/*.ext, exact anchored path, dir/** are generated",
 		"the generator creates no pointer look-alikes and no non-canonical pointers; LFS objects of the original history are all in the local store",
@@ -725,8 +844,9 @@ func main() {
 		"git 2.39.5",
 	}
 	nBase = run.N(36, 240)
-	nMid = run.N(6, 40)              // "LFS adopted midway" cases
-	n := nBase + nMid + run.N(6, 36) // + --fixup over nested attribute changes
+	nMid = run.N(6, 40)                      // "LFS adopted midway" cases
+	nNest = run.N(6, 36)                     // --fixup over nested attribute changes
+	n := nBase + nMid + nNest + run.N(6, 40) // + date layouts other than "ancestors are older"
 	if os.Getenv("VERIF_C12_CASE") == "" {
 		run.SetMinEvaluations(n / 2)
 	}
